@@ -43,7 +43,8 @@ def run(ctx: Ctx):
             outs[v["outcome"]] = outs.get(v["outcome"], 0) + 1
             cl.replay_vector(ctx, v, ev, meta, "C05")
         ctx.notes.append(f"family {fam}: model outcomes {outs}")
-        if fam == "inject" and not ({"refused", "exact"} <= set(outs)):
+        need = {"refused", "exact"} if 10 in k["VAlpha"] else {"exact", "corrupted"}
+        if fam == "inject" and not (need <= set(outs)):
             raise Machinery(f"vacuous outcome table {outs}")
         ctx.sample({"family": fam, "vector": {k2: r.prints[len(r.prints) // 2][k2] for k2 in ("c", "line", "outcome", "okValue")}})
     cl.record_random(ctx, ev, meta, 300 if ctx.quick else 4000,
